@@ -110,7 +110,13 @@ type scen struct {
 }
 
 func newScen(nw, capacity int, kinds func(int) (int, bool)) *scen {
-	s := &scen{ex: sched.NewThreadPoolExecutor(nw, capacity).(*sched.ThreadPoolExecutor),
+	var ex sched.Executor
+	if nw == 1 && capacity%2 == 1 {
+		ex = sched.NewAsyncExecutor(capacity) // the library's one-worker constructor
+	} else {
+		ex = sched.NewThreadPoolExecutor(nw, capacity) // nw <= 0 means one worker
+	}
+	s := &scen{ex: ex.(*sched.ThreadPoolExecutor),
 		endSeq: map[int]int64{}, runs: map[int]int{}, gates: map[int]chan struct{}{}, kinds: kinds, workers: map[int]bool{},
 		holds: map[int]*hold{}, callHold: map[int]*hold{}, startSeq: map[int]int64{}}
 	scens.Store(s.ex, s)
@@ -165,6 +171,8 @@ func (s *scen) task(t int) sched.Runnable {
 		return nil
 	} else if outcome == 4 {
 		return (*sched.Task)(nil)
+	} else if outcome == 5 {
+		return sched.NewTask(nil) // the library's own task without an action: Run() returns nil
 	}
 	return sched.NewTask(func() error {
 		outcome, gated := s.kinds(t)
@@ -1373,6 +1381,33 @@ func leanStartShut(in Sx) Sx {
 		Int(0), Int(0), Bool(true), Bool(res.shutStuck), Int(0), Bool(false)))
 }
 
+// the package's other Executor: ImmediateExecutor runs the task on the caller, once, before Execute
+// returns, and hands back the task's own error (also through Instance())
+func runImmediate(in Sx) Sx {
+	n := in.At(4).AsInt()
+	rng := NewRng(in.At(5).Uint64())
+	st, runs := make([]int, n), make([]int, n)
+	for i := 0; i < n; i++ {
+		var e sched.Executor = sched.NewImmediateExecutor()
+		if rng.Bool() {
+			e = e.(*sched.ImmediateExecutor).Instance()
+		}
+		var want error
+		if rng.Bool() {
+			want = errTask
+		}
+		cnt := 0
+		var got error
+		p, _ := Catch(func() { got = e.Execute(sched.NewTask(func() error { cnt++; return want })) })
+		runs[i] = cnt
+		if !p && got == want {
+			st[i] = 1
+		}
+	}
+	return List(ints(st), ints(make([]int, n)), ints(runs), ints(runs), List(Int(0), Bool(true), Bool(false),
+		Int(1), Int(1), Bool(true), Bool(false), Int(0), Bool(false)))
+}
+
 func run(in Sx) Sx {
 	if in.At(0).AsInt() == 0 {
 		return runScript(in)
@@ -1389,13 +1424,16 @@ func run(in Sx) Sx {
 	if in.Len() > 7 && in.At(7).AsInt() == 8 {
 		return leanStartShut(in)
 	}
+	if in.Len() > 7 && in.At(7).AsInt() == 9 {
+		return runImmediate(in)
+	}
 	return runConc(in)
 }
 
 // ---------------------------------------------------------------- generators
 
 func genScript(rng *Rng, directed int) Sx {
-	nw := rng.PickInt(1, 1, 1, 2, 2, 3, 4)
+	nw := rng.PickInt(0, 1, 1, 1, 2, 2, 3, 4)
 	capacity := rng.PickInt(0, 1, 1, 2, 3, 4, 6)
 	var kinds, ops []Sx
 	nexec := 0
@@ -1499,7 +1537,7 @@ func genScript(rng *Rng, directed int) Sx {
 		switch k := rng.Intn(10); {
 		case k < 6 || len(gatedOpen) == 0:
 			if rng.Chance(1, 8) {
-				addExec(rng.PickInt(3, 4), false) // a nil / typed-nil Runnable
+				addExec(rng.PickInt(3, 4, 5), false) // a nil / typed-nil Runnable, a Task without an action
 			} else {
 				addExec(rng.PickInt(0, 0, 0, 1, 2), rng.Chance(2, 5))
 			}
@@ -1695,6 +1733,9 @@ func gen(a Args, out *Out) {
 		in := List(Int(1), Int(int64(r10.PickInt(1, 2, 4))), Int(8), Int(6), Int(1), Uint(r10.Next()>>1), Int(int64(rounds)), Int(6))
 		emit("leanfresh", in)
 		out.CountN("leanfresh:fresh executors (4 lanes)", 4*rounds)
+	}
+	for i := 0; i < 3; i++ {
+		emit("immediate", List(Int(1), Int(1), Int(0), Int(1), Int(20), Uint(rng.Fork().Next()>>1), Int(0), Int(9)))
 	}
 	r11 := rng.Fork()
 	for i := 0; i < nfresh/100; i++ {
